@@ -1,7 +1,36 @@
-(** C13 — statements about the node model; see Proofs/NodeFacts.v *)
-From Wasp Require Import Model.Base Model.Node.
-From stdpp Require Import list.
+(** C13 — Will messages are published exactly when a session dies without DISCONNECT. *)
+From Wasp Require Import Model.Base Spec.MatchSpec Model.DState Model.IdPool Model.Mount Model.Node Proofs.BaseFacts Proofs.MountFacts Proofs.NodeFacts.
+From stdpp Require Import list strings.
 Open Scope Z_scope.
-Theorem C13_model_is_total : ∀ seen cl o, ∃ cl' obs, step seen cl o = (cl', obs).
-Proof. intros. destruct (step seen cl o) as [cl' obs]. by exists cl', obs. Qed.
-Print Assumptions C13_model_is_total.
+
+(** [shutdown cl i s disconnected clk] is shutdownSession + Close for session [s] hosted on node
+    [i]; every way a session ends goes through it ([end_session]): disconnected = true for
+    DISCONNECT (and for a displaced session noticed at PINGREQ), false for connection loss,
+    read-deadline expiry and protocol errors. *)
+Theorem will_on_unclean_end : ∀ cl i s w clk, ss_lwt s = Some w → mine_of (after_unsub cl i s clk) s ≠ Some false →
+  ∃ cl3, (shutdown cl i s false clk).2 =
+         Closed (ss_conn s) :: (worker cl3 i (LMsg (prefix_mp (ss_mp s) (p_topic w)) (p_payload w) (p_qos w) false false) (p_retain w) clk []).2.
+Proof. exact will_on_unclean_end. Qed.
+Print Assumptions will_on_unclean_end.
+Theorem no_will_after_disconnect : ∀ cl i s clk, (shutdown cl i s true clk).2 = [Closed (ss_conn s)].
+Proof. exact no_will_after_disconnect. Qed.
+Print Assumptions no_will_after_disconnect.
+Theorem no_will_without_lwt : ∀ cl i s d clk, ss_lwt s = None → (shutdown cl i s d clk).2 = [Closed (ss_conn s)].
+Proof. exact no_will_without_lwt. Qed.
+Print Assumptions no_will_without_lwt.
+
+(** host failure: each survivor appends to its own log one copy of the will of every listed
+    session of the failed peer, under that session's mount point (non-vacuity example; the
+    general statement is the definition of [peer_leave], compared with nodes.go by the harness) *)
+Example c13_history :
+  let run := fold_left (λ st o, let r := step [] st.1 o in (r.1, (st.2 ++ [r.2])%list)) in
+  let ops := [EConnect 0%nat "w" "cw" "ta" "" 60 None 10; ESubscribe "w" 1 [("will/#", 0)] 20;
+              EConnect 1%nat "dying" "cd" "ta" "" 60 (Some (Publish "will/t" "gone" 0 false)) 30; EGossip 1%nat 0%nat;
+              EPeerLeave 0%nat 1%nat 40;
+              EConnect 0%nat "d2" "cd2" "ta" "" 60 (Some (Publish "will/u" "bye" 0 false)) 50; EDisconnect "d2" 60;
+              EConnect 0%nat "d3" "cd3" "ta" "" 60 (Some (Publish "will/v" "lost" 0 false)) 70; EEof "d3" 80] in
+  let o := (run ops (cnew 2%nat, [])).2 in
+  nth 4%nat o [] = [Appended 0%nat "ta/will/t" "gone" 0 false; Out "w" (OPublish "will/t" "gone" 0 false false 0)]
+  ∧ nth 6%nat o [] = [Closed "d2"]
+  ∧ nth 8%nat o [] = [Closed "d3"; Appended 0%nat "ta/will/v" "lost" 0 false; Out "w" (OPublish "will/v" "lost" 0 false false 0)].
+Proof. vm_compute. done. Qed.
